@@ -168,12 +168,21 @@ def classify_and_run(rep, drv, rnd, d: Path, nodes, flag, want_blocker, stats, m
         blocker = "missingKey"
     elif want_blocker == "runSpaceInvalid":
         rs = rs or {"blocks": [{"mode": "by_position", "context": {}}]}
-        how = rnd.choice(["unequal", "bad-mode", "dup-key"])
+        how = rnd.choice(["unequal", "bad-mode", "dup-key", "dup-key-source", "dup-key-source"])
         if how == "unequal":
             rs["blocks"][0]["context"]["u1"] = [1, 2, 3, 4, 5]
             rs["blocks"][0]["context"]["u2"] = [1]
         elif how == "bad-mode":
             rs["blocks"][0]["mode"] = "diagonal"
+        elif how == "dup-key-source":
+            # the same key defined by a source file of one block and by another block (context or a second file)
+            (d / "dup_src.csv").write_text("dupk,other\n1,a\n2,b\n")
+            first = {"mode": "by_position", "source": {"format": "csv", "path": "dup_src.csv"}}
+            second = rnd.choice([{"mode": "by_position", "context": {"dupk": [7, 8]}},
+                                 {"mode": "by_position", "source": {"format": "csv", "path": "dup_src.csv", "select": ["dupk"]}}])
+            pair = [first, second]
+            rnd.shuffle(pair)
+            rs["blocks"] += pair
         else:
             rs["blocks"].append({"mode": "by_position", "context": {"dupk": [1]}})
             rs["blocks"].append({"mode": "by_position", "context": {"dupk": [2]}})
